@@ -388,3 +388,62 @@ Proof.
       leb_cases; try reflexivity; exfalso; lia. }
   rewrite Hc1, Hc2. f_equal. lia.
 Qed.
+
+(** * bits() *)
+Lemma blen_shift L j top : 0 <= j -> 0 <= L < 2 ^ j -> 0 < top ->
+  blen (L + 2 ^ j * top) = j + blen top.
+Proof.
+  intros Hj HL Ht. destruct (blen_bounds top Ht) as [Hb0 [Hlo Hhi]].
+  set (bt := blen top) in *.
+  assert (HP : 0 < 2 ^ j) by (apply Z.pow_pos_nonneg; lia).
+  apply blen_unique; [lia|].
+  replace (j + bt - 1) with (j + (bt - 1)) by lia. rewrite !Z.pow_add_r by lia.
+  set (P := 2 ^ j) in *. set (T1 := 2 ^ (bt - 1)) in *. set (T2 := 2 ^ bt) in *.
+  assert (P * T1 <= P * top) by (apply Z.mul_le_mono_nonneg_l; lia).
+  assert (P * (top + 1) <= P * T2) by (apply Z.mul_le_mono_nonneg_l; lia).
+  lia.
+Qed.
+
+Lemma canon_snoc v : canon v -> v <> [] ->
+  exists lo top, v = lo ++ [top] /\ wf lo /\ 0 < top < B.
+Proof.
+  intros Hc Hn.
+  destruct (rev v) as [|top rl] eqn:E.
+  { exfalso. apply Hn. rewrite <- (rev_involutive v), E. reflexivity. }
+  assert (Hv : v = rev rl ++ [top]) by (rewrite <- (rev_involutive v), E; reflexivity).
+  exists (rev rl), top. split; [exact Hv|].
+  assert (Hwf : wf (rev rl ++ [top])) by (rewrite <- Hv; apply Hc).
+  apply wf_app in Hwf as [Hlo Hhi]. apply wf_cons in Hhi as [Htop _]. unfold digit in Htop.
+  split; [exact Hlo|].
+  destruct (Z.eq_dec top 0) as [->|Hnz]; [exfalso|lia].
+  pose proof (val_bound (rev rl) Hlo) as Hb.
+  pose proof (canon_lower v Hc Hn) as Hlow.
+  rewrite Hv in Hlow. rewrite val_app, app_length in Hlow. cbn [val length] in Hlow.
+  replace (Z.of_nat (length (rev rl) + 1) - 1) with (Z.of_nat (length (rev rl))) in Hlow by lia.
+  lia.
+Qed.
+
+Lemma ubits_blen v : canon v -> ubits v = blen (val v).
+Proof.
+  intros Hc. destruct v as [|d r] eqn:Ev; [reflexivity|]. rewrite <- Ev in *.
+  destruct (canon_snoc v Hc ltac:(rewrite Ev; discriminate)) as (lo & top & Hv & Hlo & Htop).
+  rewrite Hv. unfold ubits. rewrite rev_app_distr. cbn [rev app]. rewrite app_length. cbn [length].
+  rewrite val_app. cbn [val]. rewrite B_pow_m.
+  pose proof (val_bound lo Hlo) as Hb. rewrite B_pow_m in Hb.
+  replace (top + B * 0) with top by lia.
+  rewrite blen_shift by lia. unfold lz64. rewrite bitlen_blen. lia.
+Qed.
+
+Lemma pow2_le_iff y K : 0 < y -> 0 <= K -> (2 ^ K <= y <-> K < blen y).
+Proof.
+  intros Hy HK. destruct (blen_bounds y Hy) as [Hb0 [Hlo Hhi]]. split; intros H.
+  - destruct (Z_lt_ge_dec K (blen y)) as [|Hge]; [assumption|exfalso].
+    assert (2 ^ blen y <= 2 ^ K) by (apply Z.pow_le_mono_r; lia). lia.
+  - assert (2 ^ K <= 2 ^ (blen y - 1)) by (apply Z.pow_le_mono_r; lia). lia.
+Qed.
+
+Lemma blen_mul_pow2 m j : 0 < m -> 0 <= j -> blen (m * 2 ^ j) = blen m + j.
+Proof.
+  intros Hm Hj. replace (m * 2 ^ j) with (0 + 2 ^ j * m) by ring.
+  rewrite blen_shift; [lia|lia| |lia]. split; [lia|apply Z.pow_pos_nonneg; lia].
+Qed.
